@@ -850,13 +850,20 @@ func gfsCorpus() []run.Case {
 func init() {
 	run.Register(&run.Stream{
 		Name: "gridfs",
-		Rule: "one upload lifecycle (plain / abort / abort+reupload / delete(+cleanup) / tracked suspend-open-resume segments / error probes / " +
+		Rule: "70%: one upload lifecycle (plain / abort / abort+reupload / delete(+cleanup) / tracked suspend-open-resume segments / error probes / " +
 			"4% unusable chunk sizes 0, negative, > buffer that must be rejected) " +
 			"with content length k*c+d around multiples of the chunk size c (2% around the " + strconv.Itoa(gfsBuf) + "-byte upload buffer), a write partition, " +
-			"and a read/seek/skip script on the download stream; non-trivial = length not a multiple of the chunk size or the script seeks/skips",
+			"and a read/seek/skip script on the download stream; non-trivial = length not a multiple of the chunk size or the script seeks/skips; " +
+			"30% (op gridfs.multi, always non-trivial): several streams of one bucket alive together — after an earlier upload finished (close/abort/suspend) " +
+			"2-3 upload streams with interleaved writes around the chunk size (4% with one stream crossing the upload buffer), closed/aborted in any order, " +
+			"then two download streams read alternately; or an explicit id colliding with a completed file (OpenUploadStreamWithID / UploadFromStreamWithID, " +
+			"tracked and untracked, failing stream aborted, abort of an unwritten stream, optional delete) where the first file must stay intact",
 		Gen: func(r *gen.R, idx int) []run.Case {
+			if r.P(30) {
+				return []run.Case{gmExec(gmGenCase(r))}
+			}
 			return []run.Case{gfsExec(gfsGenCase(r))}
 		},
-		Corpus: gfsCorpus,
+		Corpus: func() []run.Case { return append(gfsCorpus(), gmCorpus()...) },
 	})
 }
